@@ -624,6 +624,12 @@ def cases(rng, tier):
             if rng.random() < 0.2:
                 c['end'] = 'reset'          # the stream ends with a connection reset instead of an orderly EOF
             yield c
+            if rng.random() < 0.25:
+                # the same stream with its last chunk(s) and its end arriving in one loop turn
+                # (orderly end only: after a connection RESET in the same turn asyncio's reader raises before it looks
+                # at what it has buffered - bytes a reset connection had delivered are not "the stream" any more)
+                g = {k: v for k, v in c.items() if k != 'end'}
+                yield dict(g, glue=rng.choice([1, 1, 2, len(cs) + 1]))
     # packets of >= 65536 bytes (Length in its 5-byte form for real), alone / between small packets / cut short
     big = big_packets()
     for bi in range(2 if quick else 12):
@@ -814,6 +820,11 @@ def _chunks(case):
     return out
 
 
+def _first_glued(case, n):
+    g = case.get('glue', 0)
+    return max(0, n - g) if g else n
+
+
 def run_stream(case):
     from ndn.transport.stream_face import StreamFace
 
@@ -841,10 +852,17 @@ def run_stream(case):
         try:
             loop.settle(limit=2000)
             trace = []               # number of packets the callback has received after each chunk, then after the end
-            for ch in _chunks(case):
+            chunks = _chunks(case)
+            # 'glue': the last g chunks and the end of the stream reach the reader in ONE turn of the event loop (a peer
+            # that writes and closes at once): nothing can be observed in between (None in the trace)
+            first_glued = _first_glued(case, len(chunks))
+            for idx, ch in enumerate(chunks):
                 face.reader.feed_data(ch)
-                loop.settle(limit=2000)
-                trace.append(len(got))
+                if idx < first_glued:
+                    loop.settle(limit=2000)
+                    trace.append(len(got))
+                else:
+                    trace.append(None)
             before_eof = len(got)
             if case.get('end') == 'reset':
                 face.reader.set_exception(ConnectionResetError())
@@ -1222,8 +1240,11 @@ def model_obs(answer, case, impl):
         tr, mid, status = answer[3:].split(' ; ')
         ps, rem = mid.split(' | ')
         pk = [] if ps == '.' else [[int(x.split(':')[0]), '' if x.split(':')[1] == '-' else x.split(':')[1]] for x in ps.split(',')]
-        return {'got': pk, 'rem': '' if rem == '-' else rem, 'trace': [] if tr == '.' else [int(x) for x in tr.split(',')],
-                'status': status}
+        trace = [] if tr == '.' else [int(x) for x in tr.split(',')]
+        if case.get('glue'):
+            fg = _first_glued(case, len(_chunks(case)))
+            trace = [None if fg <= i < len(trace) - 1 else x for i, x in enumerate(trace)]
+        return {'got': pk, 'rem': '' if rem == '-' else rem, 'trace': trace, 'status': status}
     if k == 'udp':
         return answer
     parts = answer.split(' # ')
